@@ -170,7 +170,13 @@ func (e *expression) quantile(expr *stmt.CallExpr) []*collections.FloatArray {
 			if err != nil {
 				continue
 			}
-			histogramFields[upperBound] = df.GetDefaultValues()
+			values := df.GetDefaultValues()
+			if len(values) == 0 || values[0] == nil || values[0].IsEmpty() {
+				// a bucket without any observation is not part of the histogram; whether a leaf sends such a
+				// field empty or not at all depends on the series it reduced before
+				continue
+			}
+			histogramFields[upperBound] = values
 		}
 	}
 	if len(histogramFields) == 0 {
